@@ -1,8 +1,16 @@
 // C16 correspondence harness: drives the real tapkee_internal::fibonacci_heap.
-// in : heap cap=7 ops=i:3:5,i:1:5,d:3:2,x,c,g:3
-// out: dn=3 | s1 s2 s2 x1:5:1 s0 g-
+// in : heap cap=7 ops=i:3:5,i:1:5,d:3:2,x,c,g:3 [trace=1] [dump=1]
+// out: dn=3 | s1 s2 s2 x1:5:1 s0 g- | r=0 n=0 m=0 t=0 [| idx:parent:rank:marked:key ...]
+//   r = max rank over the stored nodes, n = stored nodes (nodes[i]->index != -1), m = marked stored nodes,
+//   t = get_num_trees(); all read from the protected members through a derived class (no change to /repo).
+//   trace=1 : every output token gets the suffix /r:n:m (structure after that operation)
+//   dump=1  : every stored node, in index order, with the index of its parent (-1 = root)
+// in : more ops=... [trace=1] [dump=1]     continue on the heap of the previous line (used by the guided search,
+//                                          which talks to one long-lived process); the dn= field is repeated
 #include <tapkee/defines.hpp>
 #include <tapkee/utils/fibonacci_heap.hpp>
+
+#include <memory>
 
 #include "vcommon.hpp"
 
@@ -13,19 +21,61 @@ struct open_heap : fibonacci_heap
 {
     open_heap(int c) : fibonacci_heap(c) {}
     int dn() const { return Dn; }
+    void structure(int& r, int& n, int& m) const
+    {
+        r = n = m = 0;
+        for (int i = 0; i < max_num_nodes; i++)
+            if (nodes[i]->index != -1)
+            {
+                n++;
+                if (nodes[i]->rank > r)
+                    r = nodes[i]->rank;
+                if (nodes[i]->marked)
+                    m++;
+            }
+    }
+    std::string summary()
+    {
+        int r, n, m;
+        structure(r, n, m);
+        std::ostringstream o;
+        o << "r=" << r << " n=" << n << " m=" << m << " t=" << get_num_trees();
+        return o.str();
+    }
+    std::string short_summary() const
+    {
+        int r, n, m;
+        structure(r, n, m);
+        std::ostringstream o;
+        o << "/" << r << ":" << n << ":" << m;
+        return o.str();
+    }
+    std::string dump() const
+    {
+        std::ostringstream o;
+        for (int i = 0; i < max_num_nodes; i++)
+            if (nodes[i]->index != -1)
+                o << " " << i << ":" << (nodes[i]->parent ? nodes[i]->parent->index : -1) << ":" << nodes[i]->rank << ":"
+                  << (nodes[i]->marked ? 1 : 0) << ":" << vh::num(nodes[i]->key);
+        return o.str();
+    }
 };
 
 int main()
 {
     std::string line;
+    std::unique_ptr<open_heap> heap;
     while (std::getline(std::cin, line))
     {
         if (line.empty())
             continue;
         vh::case_alarm(4);
         auto f = vh::fields(line);
-        int cap = std::stoi(f["cap"]);
-        open_heap h(cap);
+        if (line.rfind("more", 0) != 0 || !heap)
+            heap.reset(new open_heap(std::stoi(f["cap"])));
+        open_heap& h = *heap;
+        bool trace = f.count("trace") && f["trace"] == "1";
+        bool dump = f.count("dump") && f["dump"] == "1";
         std::ostringstream out;
         out << "dn=" << h.dn() << " |";
         for (auto& op : vh::split(f["ops"], ','))
@@ -65,10 +115,16 @@ int main()
                 else
                     out << " g" << vh::num(k);
             }
+            if (trace)
+                out << h.short_summary();
             // progress marker so that a sanitizer abort can be attributed to an operation
             std::cerr << "op " << op << "\n";
         }
+        out << " | " << h.summary();
+        if (dump)
+            out << " |" << h.dump();
         std::cout << out.str() << std::endl;
+        vh::case_alarm(0); // the watchdog is per case: a session may idle between lines
     }
     return 0;
 }
